@@ -354,15 +354,22 @@ class FTPProcessorSession(BaseProcessorSession):
                     not fnmatch.fnmatchcase(file_entry.name, self._glob_pattern):
                 continue
 
+            # A name is one path segment, whatever characters it contains.
+            # Unquoted, "Re: x" reads as a URL with the scheme "re", "//x"
+            # names another host and "a?b" has a query.
+            quoted_name = urllib.parse.quote(
+                file_entry.name, safe='', encoding='utf-8',
+                errors='surrogateescape')
+
             if file_entry.type == 'dir':
-                linked_url = urljoin_safe(base_url, file_entry.name + '/')
+                linked_url = urljoin_safe(base_url, quoted_name + '/')
             elif file_entry.type in ('file', 'symlink', None):
                 if not self._processor.fetch_params.retr_symlinks and \
                         file_entry.type == 'symlink':
                     self._make_symlink(file_entry.name, file_entry.dest)
                     linked_url = None
                 else:
-                    linked_url = urljoin_safe(base_url, file_entry.name)
+                    linked_url = urljoin_safe(base_url, quoted_name)
             else:
                 linked_url = None
 
